@@ -42,6 +42,7 @@ impl Cfg {
             decoys: v["decoys"].as_bool().unwrap(),
             hk: match v["hk"].as_str().unwrap() {
                 "ES256" => Hk::Es,
+                "ES256-leading-zero-coordinate" => Hk::EsLz,
                 "EdDSA" => Hk::Ed,
                 _ => Hk::None,
             },
@@ -150,6 +151,11 @@ pub fn c05_oracle(u: &Value, strat: &Strat, cfg: &Cfg, out: &Out<String>) -> (Op
     };
     if parts.kb.is_some() {
         bad.push(("malformed_output".into(), "c05_kb_in_issuance".into(), "issued SD-JWT carries a key-binding JWT".into()));
+    }
+    // the issuer-signed JWT is a JWS that any JOSE library verifies under the issuer's key with the algorithm asked
+    // for (checked with jsonwebtoken directly, not through sd-jwt-rs)
+    if let Err(e) = independent_jws_check(&parts.jwt, cfg.alg.name(), &keys::issuer_dec(cfg.alg, 0)) {
+        bad.push(("malformed_output".into(), "c05_issuer_jws".into(), e));
     }
     let an = match analyze(&parts) {
         Ok(a) => a,
@@ -269,6 +275,21 @@ pub fn c12_oracle(cred: &Cred) -> Vec<(String, String, String)> {
     bad
 }
 
+/// Header alg equals `alg` and the signature verifies under `key` (no claim validation at all).
+pub fn independent_jws_check(jwt: &str, alg: &str, key: &jsonwebtoken::DecodingKey) -> Result<Value, String> {
+    let hdr = jsonwebtoken::decode_header(jwt).map_err(|e| format!("header does not decode: {e}"))?;
+    let want: jsonwebtoken::Algorithm = alg.parse().map_err(|_| format!("unknown alg {alg}"))?;
+    if hdr.alg != want {
+        return Err(format!("header alg {:?}, asked for {alg}", hdr.alg));
+    }
+    let mut v = jsonwebtoken::Validation::new(want);
+    v.validate_exp = false;
+    v.validate_nbf = false;
+    v.validate_aud = false;
+    v.required_spec_claims.clear();
+    jsonwebtoken::decode::<Value>(jwt, key, &v).map(|d| d.claims).map_err(|e| format!("signature / encoding not accepted by an independent JWS check: {e}"))
+}
+
 pub fn kb_args(cfg: &Cfg) -> KbArgs {
     match cfg.hk {
         Hk::None => KbArgs::none(),
@@ -327,6 +348,33 @@ pub fn run_selection(cred: &Cred, sel: &Map<String, Value>, checks: Checks, prop
                 }
                 if pp.kb.is_some() != (cfg.hk != Hk::None) {
                     l.violation(mk("present", "wrong_kb", "c06_kb_presence".into(), format!("kb present={} requested={}", pp.kb.is_some(), cfg.hk != Hk::None)));
+                }
+                // the key-binding JWT is what a conforming verifier expects: a JWS under the holder's public key with
+                // the holder key's algorithm, typ kb+jwt, the nonce and audience asked for, a numeric iat, and sd_hash
+                // over exactly jwt~d1~..~dn~ (checked without sd-jwt-rs)
+                if let (Some(kb), Some(jwk)) = (&pp.kb, cfg.hk.jwk(0)) {
+                    let problem = (|| -> Result<(), String> {
+                        let key = jsonwebtoken::DecodingKey::from_jwk(&jwk).map_err(|e| e.to_string())?;
+                        let claims = independent_jws_check(kb, cfg.hk.alg().unwrap_or("ES256"), &key)?;
+                        let hdr: Value = kb.split('.').next().and_then(codec::decode_json).ok_or("header is not base64url JSON")?;
+                        if hdr["typ"] != "kb+jwt" {
+                            return Err(format!("typ is {}", hdr["typ"]));
+                        }
+                        if claims["nonce"] != NONCE || claims["aud"] != AUD {
+                            return Err(format!("nonce {} aud {}", claims["nonce"], claims["aud"]));
+                        }
+                        if !claims["iat"].is_number() {
+                            return Err(format!("iat is {}", claims["iat"]));
+                        }
+                        let want = codec::digest(&codec::Parts { jwt: pp.jwt.clone(), disclosures: pp.disclosures.clone(), kb: None }.sd_hash_input());
+                        if claims["sd_hash"] != want.as_str() {
+                            return Err(format!("sd_hash {} but the digest of the presented jwt~d1~..~dn~ is {want}", claims["sd_hash"]));
+                        }
+                        Ok(())
+                    })();
+                    if let Err(e) = problem {
+                        l.violation(mk("present", "wrong_kb", "c06_kb_jwt_not_conforming".into(), e));
+                    }
                 }
             }
         }
